@@ -62,25 +62,26 @@ def clause_c(ctx, P):
     run = P.one("Zeroconf::run")
     loops = run.loops()
     main = max(loops, key=lambda h: len(loops[h]))
-    cs = calls_to(run, "DnsCache::refresh_due_hostname_resolutions")
-    ctx.require(len(cs) == 1, "C17c.anchor", run.name, run.loc(), "one refresh_due_hostname_resolutions call in run")
-    if cs:
-        b = cs[0][0]
-        # the outermost loop nested in the main loop that contains the call: its head must be on every iteration
-        inner = [h for h, body in loops.items() if b in body and h != main]
-        ok = False
-        if inner:
-            h = max(inner, key=lambda h: len(loops[h]))
-            ok = loop_every_iteration_passes(run, main, loops[main], [h])
-        ctx.ob("C17c.refresh-every-iteration", run.name, ok, run.loc(b),
+    is_hr = lambda n: name_matches(n, "DnsCache::refresh_due_hostname_resolutions")
+    sites = direct_callers_in_lib(P, is_hr)
+    ctx.require(len(sites) == 1, "C17c.anchor", "one refresh_due_hostname_resolutions call site", run.loc(), "%d call site(s)" % len(sites))
+    if sites:
+        # the step may live in run itself or in a helper run calls on every iteration
+        hr = [b for b, _c in blocks_always_reaching(P, run, is_hr, outer_head=main) if b in loops[main]]
+        ok = bool(hr) and loop_every_iteration_passes(run, main, loops[main], hr)
+        ctx.ob("C17c.refresh-every-iteration", run.name, ok, run.loc(hr[0]) if hr else run.loc(),
                "every cycle of the run loop enters the hostname-refresh loop" if ok else "an iteration can skip the hostname refresh block")
         # iterates hostname_resolvers and queries what the cache returns
-        tr = tracer(P, run)
-        e = tr.operand(cs[0][1]["args"][1], endpos(run, b))
-        ctx.ob("C17c.refresh-over-resolvers", run.name, expr_mentions_field(e, "hostname_resolvers", "Zeroconf"), run.loc(b),
+        (hf, b, t) = sites[0]
+        tr = tracer(P, hf)
+        e = tr.operand(t["args"][1], endpos(hf, b))
+        ctx.ob("C17c.refresh-over-resolvers", hf.name, expr_mentions_field(e, "hostname_resolvers", "Zeroconf"), hf.loc(b),
                "the refresh argument ranges over the keys of hostname_resolvers")
-        sq = [bb for bb, t in run.calls() if cname(t).endswith("Zeroconf::send_query") and bb in loops.get(max(inner, key=lambda h: len(loops[h])), ())] if inner else []
-        ctx.ob("C17c.refresh-queries", run.name, bool(sq), run.loc(b), "due addresses are re-queried inside that loop")
+        hloops = hf.loops()
+        outer = main if hf is run else None
+        inner = [h for h, body in hloops.items() if b in body and h != outer]
+        sq = [bb for bb, tt in hf.calls() if cname(tt).endswith("Zeroconf::send_query") and bb in hloops.get(max(inner, key=lambda h: len(hloops[h])), ())] if inner else []
+        ctx.ob("C17c.refresh-queries", hf.name, bool(sq), hf.loc(b), "due addresses are re-queried inside that loop")
     g = P.one("DnsCache::refresh_due_hostname_resolutions")
     for c in P.closures_of.get(g.name, []):
         cf = P.fns[c]
@@ -195,6 +196,9 @@ def clause_f(ctx, P):
 
 
 def run(ctx, P):
+    from . import r2, f5 as _f5
+    r2.events_are_lossless(ctx, P, "C17h", chan_suffix="HostnameResolutionEvent", floor=2)
+    _f5.check_single_folding(ctx, P, {"hostname_resolvers", "addr"}, "C17a.F5.single-folding")
     c13.clause_stop_paths(ctx, P, "C17g")
     f5.run_f5(ctx, P, {"addr"}, rule="C17a.F5.key-normalised", floor=8)
     clause_b(ctx, P)
